@@ -796,6 +796,10 @@ func GenC11(r *RNG) *C11Plan {
 	p.Mask = genMask(r)
 	p.PoolPol = r.Intn(3)
 	p.Strategy = genStrategy(r)
+	if r.Intn(4) == 0 {
+		// the read loop dawdles over a GOAWAY: whoever it wakes gets well ahead of it before it is done
+		p.Strategy.Starve = "(Conn.failAbove)|(Conn.readNext)|(Conn.deletePending)"
+	}
 	p.SelSeed = r.Uint64()
 	p.Frag = r.Intn(3) == 0
 	p.MaxSteps = 400000
